@@ -105,6 +105,15 @@ structure Heap where
   targets : Nat → List Nat    -- out.targets
   size : Nat                  -- number of objects (bound of every walk along `source`)
 
+/-- all values of a list of optionals (`None` among numbers makes `min` / `max` raise) -/
+def allSome {α} : List (Option α) → Except Err (List α)
+  | [] => .ok []
+  | none :: _ => .error .other
+  | some x :: r => (allSome r).map (x :: ·)
+
+def minOptList (l : List (Option Int)) : Except Err Int := allSome l >>= minList
+def maxOptList (l : List (Option Int)) : Except Err Int := allSome l >>= maxList
+
 /-- `timedelta.total_seconds()` of a duration in microseconds -/
 def totalSeconds (d : Int) : Rat := (d : Rat) / 1000000
 
